@@ -423,6 +423,35 @@ def gen_heap(rng):
     return {"market_id": mid, "tick": tick, "mp0": ref, "ops": ops, "mode": "heap"}
 
 
+def gen_churn(rng):
+    """continuous trading against a deep book: 8-16 small resting orders on one side at a few price levels (many ties), then a series
+    of small aggressive limit orders on the other side at resting levels, a matching round and an observation after each - every round
+    consumes the top of the deep side again, so damage done to the book's layout by one round is met by the next ones"""
+    tick = rng.choice(DYADIC_TICKS)
+    ref = rng.choice([100.0, 300.0])
+    mid = rng.randint(0, 3)
+    deep_buy = rng.random() < 0.5
+    ops = [("tick", ref), ("run", True)]
+    levels = [rng.randint(1, 13) for _ in range(rng.randint(3, 6))]
+    rest = []
+    for _ in range(rng.randint(8, 16)):
+        lvl = rng.choice(levels)
+        price = ref - lvl * tick if deep_buy else ref + lvl * tick
+        ops.append(("add", rng.randint(0, 4), mid, deep_buy, price, rng.choice([1, 1, 1, 2]), None))
+        rest.append(lvl)
+    ops.append(("qstate",))
+    for _ in range(rng.randint(3, 9)):
+        lvl = rng.choice(sorted(set(rest)) + [max(rest) + 1, min(rest)])       # any resting level, the best one, or beyond the deepest
+        price = ref - lvl * tick if deep_buy else ref + lvl * tick
+        ops.append(("add", rng.randint(0, 4), mid, not deep_buy, price, rng.choice([1, 1, 2, 3]), None))
+        ops.append(("exec",))
+        ops.append(("qstate",))
+        if rng.random() < 0.15:
+            ops.append(("tick", ref))
+    ops.append(("qseries",))
+    return {"market_id": mid, "tick": tick, "mp0": ref, "ops": ops, "mode": "churn"}
+
+
 def gen_tickprobe(rng):
     """limit prices of every magnitude, on the grid and off it by tiny and by large fractions of a tick
     (all exactly representable: dyadic tick, < 53 significant bits), both sides, matching off"""
@@ -449,7 +478,9 @@ def gen_tickprobe(rng):
 
 
 def gen_history(rng, n_ops, mode=None):
-    mode = mode or rng.choice(["continuous", "continuous", "call", "mixed", "deep", "deep", "tickprobe", "heap"])
+    mode = mode or rng.choice(["continuous", "continuous", "call", "mixed", "deep", "deep", "tickprobe", "heap", "churn"])
+    if mode == "churn":
+        return gen_churn(rng)
     if mode == "deep":
         return gen_deep(rng)
     if mode == "heap":
